@@ -51,6 +51,7 @@ type Config struct {
 	Disk      bool        `json:"disk"`
 	Query     string      `json:"query,omitempty"`
 	ConstSd   int         `json:"constSd,omitempty"` // constant sample duration of the leading track (ticks), 0 = not constant
+	NtpMode   string      `json:"ntpMode,omitempty"` // wall clock written with the units: "" = +1 s per Write; "back" = steps back 30 s every 9th Write; "jump" = +5 min every 7th
 }
 
 // Step is one Write call.
@@ -106,6 +107,7 @@ type runner struct {
 	units   []map[int]*unitRec // per track: id -> unit
 	nextID  []int
 	nwrites int64
+	ntpSkew time.Duration
 	dir     string
 
 	s       *sched.Sched
@@ -344,7 +346,16 @@ func (r *runner) write(st Step) (trace.M, bool) {
 		n = 1
 	}
 	r.nwrites++
-	ntp := ntpBase.Add(time.Duration(r.nwrites) * time.Second)
+	switch {
+	case r.cfg.NtpMode == "back" && r.nwrites%9 == 0:
+		r.ntpSkew -= 31 * time.Second
+	case r.cfg.NtpMode == "jump" && r.nwrites%7 == 0:
+		r.ntpSkew += 5 * time.Minute
+	}
+	ntp := ntpBase.Add(time.Hour + time.Duration(r.nwrites)*time.Second + r.ntpSkew)
+	if r.cfg.NtpMode == "" {
+		ntp = ntpBase.Add(time.Duration(r.nwrites) * time.Second)
+	}
 	var aus [][][]byte
 	var ul []trace.M
 	dts := st.DTS
